@@ -15,6 +15,25 @@ from vp.runner import Result, Deadline, exc_site
 ID = "C14"
 LEVEL = "exploration"
 ALPHABET = "./[]()'\"\\&*!=~<>^$%,:+- ab1"
+# -- slot filling: every syntactic position x treacherous payloads -----------
+TEMPLATES = [
+    "@", "a.@", "/@", "/a/@", "a[@]", "a[@:1]", "a[1:@]", "a[@:@]", "&@",
+    "a[&@]", "a[@=1]", "a[b=@]", "a[b@1]", "a[@(b)]", "a[!@(b)]", "a[@()]",
+    "a[max(@)]", "a[parent(@)]", "a[has_child(@,@)]", "a[b=~/@/]",
+    "a[b=~@x@]", "(@)", "(a)+(@)", "a(@)", "a[@", "a[b=@", "@[0]", "'@'",
+    "\"@\"", "a\\@", "[@]", "[@(", "a[.@a]", "a[@.=1]", "a[b=1]@",
+    "a.@.b", "/a[@]/b", "a[b='@']", "a[@(", "a[b @ c]", "a.b[@][@]",
+]
+PAYLOADS = [
+    "{", "}", "{}", "{0}", "{x}", "{0!r}", "{:>9}", "%s", "%d", "%", "%(x)s",
+    "\u00b2", "\u2460", "\u0663", "\uff11", "-\u2081", "\U0001d7d9",
+    "\u2167", "\u00bd", "1_0", "0x1", "1e3", " 1 ", "+1", "--1", "-", "+",
+    "9" * 5000, "-" + "9" * 5000, "1" * 4301, "\t", "\n", "\r", "\x00",
+    "\u2028", "\u00e9", "\ud800", "\U0010ffff", "\\", "\\\\", "''",
+    '""', " ", "", "None", "nan", "inf", "1.5", "1j", "True", "a" * 3000,
+]
+
+
 RULE = ("E1: every string of length <= L (L=5 quick, 6 thorough; quick "
         "enumerates L=5 completely) over the alphabet %r, each parsed (a) "
         "with the inferred separator, (b) with the opposite separator forced "
@@ -23,10 +42,16 @@ RULE = ("E1: every string of length <= L (L=5 quick, 6 thorough; quick "
         ".escaped, .unescaped, str(), len(), and .parameters of every keyword "
         "segment. E2: Hypothesis text() incl. arbitrary Unicode up to 64 "
         "chars and single-character mutations of a corpus of valid paths. "
+        "E3: %d templates marking every syntactic position (key, index, "
+        "slice bound, anchor, attribute, operator, term, keyword name and "
+        "parameter, regex body/delimiter, collector) x %d payloads (format "
+        "braces and percent directives, non-ASCII digits, numbers int() "
+        "rejects or that exceed the int-to-str limit, control characters, a "
+        "lone surrogate). "
         "A case is non-trivial when the text has >= 2 characters of which "
         ">= 1 is syntactically significant (not a letter/digit); enumerated "
         "strings are distinct by construction, random ones are counted by "
-        "hash." % ALPHABET)
+        "hash." % (ALPHABET, len(TEMPLATES), len(PAYLOADS)))
 ASSUMPTIONS = [
     "non-termination is detected by a 20 s alarm per batch of 2000 inputs "
     "(the parser is a single for-loop over the characters)",
@@ -51,6 +76,14 @@ VALID_PATHS = [
     "a[b=\"c\"]", "\\&a", "a.1", "/1/2", "a[.!=]", "a[.=]", "*[a=1]",
     "**[.^a]", "a[b==1]", "a.b\\[0\\]", "a.b\\(c\\)", "a\\\\b", "a[.%'(']",
 ]
+
+
+def slot_texts():
+    out = []
+    for tmpl in TEMPLATES:
+        for pay in PAYLOADS:
+            out.append(tmpl.replace("@", pay))
+    return out
 
 
 class _Hang(Exception):
@@ -186,6 +219,8 @@ def plan(tier, seed):
     for a in ALPHABET:
         for b in ALPHABET:
             shards.append({"kind": "enum", "prefix": a + b, "maxlen": maxlen})
+    for i in range(4):
+        shards.append({"kind": "slots", "part": i, "parts": 4})
     nhyp = 16 if tier == "quick" else 64
     per = 6000 if tier == "quick" else 40000
     for i in range(nhyp):
@@ -217,6 +252,10 @@ def run_shard(shard):
                         return res
             if batch:
                 _run_batch(batch, res, "enum", False)
+    elif shard["kind"] == "slots":
+        texts = slot_texts()[shard["part"]::shard["parts"]]
+        _run_batch(texts, res, "slots", True)
+        res.label("slots", len(texts))
     else:
         _run_hyp(shard, res, dl)
     return res
@@ -224,7 +263,9 @@ def run_shard(shard):
 
 def _strategy():
     from hypothesis import strategies as st
-    sig = st.sampled_from(sorted(SIGNIFICANT))
+    sig = st.one_of(st.sampled_from(sorted(SIGNIFICANT)),
+                    st.sampled_from(sorted(SIGNIFICANT)),
+                    st.sampled_from(PAYLOADS[:27]))
     any_text = st.text(max_size=64)
     dense = st.text(alphabet=st.one_of(sig, st.sampled_from("ab1"),
                                        st.characters()), max_size=64)
